@@ -70,7 +70,7 @@ def drive(task):
             yield from events({"kind": "pda_apos", "seed": task["seed"] * 100000 + i}, task["n"])
     else:
         for i in range(task["count"]):
-            src = {"kind": "pda_rnd", "seed": task["seed"] * 100000 + i}
+            src = {"kind": "pda_rnd", "seed": task["seed"] * 100000 + i, "multichar": 1}
             if i % 3 == 2:
                 src["qnames"] = i // 3           # states named like the names the constructions generate
             yield from events(src, task["n"])
